@@ -93,18 +93,6 @@ Proof. exact bn_vjp_beta_proof. Qed.
 Goal True. idtac "ASSUMPTIONS bn_vjp_beta". Abort.
 Print Assumptions bn_vjp_beta.
 
-(* what the forward normalises with, and the running-statistics update it returns (used by C13 as well) *)
-Theorem bn_running_stats_update : forall n x weight bias (m v : R) momentum eps,
-  (let '(_, rm', rv', mean, var) := batch_norm_forward n x weight bias (Some m) (Some v) true momentum eps in
-   rm' = Some (vmean n x * momentum + m * (1 - momentum)) /\
-   rv' = Some (vvar n x * (INR n / (INR n - 1)) * momentum + v * (1 - momentum)) /\
-   mean = vmean n x /\ var = vvar n x) /\
-  (let '(_, rm', rv', mean, var) := batch_norm_forward n x weight bias (Some m) (Some v) false momentum eps in
-   rm' = Some m /\ rv' = Some v /\ mean = m /\ var = v).
-Proof. exact bn_running_stats_update_proof. Qed.
-Goal True. idtac "ASSUMPTIONS bn_running_stats_update". Abort.
-Print Assumptions bn_running_stats_update.
-
 (* non-vacuity: concrete instances *)
 Example softmax_example : softmax_out 2 (fun _ => 0) 0%nat = 1 / 2.
 Proof. exact softmax_example_proof. Qed.
